@@ -119,6 +119,7 @@ fn main() {
         "srv-enum" => suites::srvsuites::srv_enum(&mut rec, &mut rng, thorough),
         "srv-fault" => suites::srvsuites::srv_fault(&mut rec, &mut rng, thorough),
         "srv-conn" => suites::srvsuites::srv_conn(&mut rec, &mut rng, thorough),
+        "srv-fds" => suites::srvfds::run(&mut rec, &mut rng, thorough),
         other => {
             eprintln!("unknown suite {}", other);
             std::process::exit(2);
